@@ -141,6 +141,17 @@ func (fr *Frame) addEdge(in map[*ssa.BasicBlock][]edge, from, to *ssa.BasicBlock
 			saved[p] = fr.vals[p]
 			fr.vals[p] = fr.get(p.Edges[predIndex(to, from)])
 		}
+		// loop asserts: proved here, then available as lemmas for the invariant proofs
+		if fr.contract != nil {
+			for _, cl := range fr.contract.LoopAsserts[li.ord] {
+				fr.evalBlock = from
+				t := fr.evalClause(cl, li.header, fr.entry, st)
+				fr.evalBlock = nil
+				base := fmt.Sprintf("%s#loop-assert@loop%d", fr.key, li.ord)
+				fr.fx.obligeNamed(base, "inv-step", cl.Tags, c, t, cl.Src, cl.Text)
+				fr.fx.assert(implies(c, t))
+			}
+		}
 		// evaluate with the back-edge values
 		for _, cl := range fr.invariants(li) {
 			fr.checkInv(cl, li, st, c, "inv-step")
